@@ -401,3 +401,134 @@ def check_panic_surface(ctx, key, bodies, audited, discharge=None, what=""):
                                                                         f" but only {mx} audited: a panic-capable construct on an untrusted-input path needs a local guard or an audit line"),
                    b.loc(bbs[0]))
     return total, discharged_n, listed
+
+
+# --------------------------------------------------------------------------- check liveness (T7)
+def variant_constructors(F, enum_path, scope=None):
+    """{variant: [fn names]} for constructions of variants of enum_path (scope: regex on fn name), derive impls excluded"""
+    pre = enum_path + "::"
+    r = re.compile(scope) if scope else None
+    out = {}
+    for f in F.fns.values():
+        if f.timpl and f.timpl[0] in ("core::clone::Clone", "sbor::decode::Decode", "core::default::Default") or \
+                (f.timpl and f.timpl[0].startswith("sbor::")):
+            continue
+        if r and not r.search(f.name):
+            continue
+        for v in f.vars:
+            if v.startswith(pre) and "::" not in v[len(pre):]:
+                out.setdefault(v[len(pre):], []).append(f.name)
+    return out
+
+
+def check_variants_live(ctx, key, enum_path, scope=None, dead_ok=None, F=None, conditional=True):
+    """T7: every variant of a rejection enum is constructed somewhere in scope (a check whose error can no longer be produced is no
+    longer enforced) and, when conditional, at least one construction site is control-dependent on a branch"""
+    F = F or ctx.F
+    dead_ok = dead_ok or {}
+    allv = set(F.enums.get(enum_path, {}).values())
+    if not allv:
+        return ctx.ob(f"{key}|enum-known", False, f"enum {enum_path} not found in the fact database")
+    cons = variant_constructors(F, enum_path, scope)
+    ok_all = True
+    for v in sorted(allv):
+        if v in dead_ok:
+            if v in cons:
+                ctx.note(f"{enum_path}::{v} is listed as dead ({dead_ok[v]}) but is constructed in {cons[v][:2]}")
+            continue
+        fns = cons.get(v, [])
+        ok = bool(fns)
+        detail = f"{enum_path.rsplit('::',1)[1]}::{v} constructed in {len(fns)} function(s)" + (f" e.g. {fns[0]}" if fns else " — the rejection is DEAD")
+        if ok and conditional:
+            cond = False
+            for fn in fns[:6]:
+                if F.fns[fn].timpl and F.fns[fn].timpl[0].startswith("core::convert::From"):
+                    cond = True   # wrapper variant: produced by `?` conversion of an inner error
+                    continue
+                b = ctx.body(fn, F)
+                sites = agg_blocks(b, re.escape(enum_path) + "$", v)
+                rets = set(b.returns())
+                for s in sites:
+                    if b.reach((0,), blocked_blocks=[s]) & rets or len(b.switches()) > 0 and s != 0:
+                        cond = True
+            ok = cond
+            if not cond:
+                detail += " but never under a branch"
+        ctx.ob(f"{key}|{v}", ok, detail, F.fns[fns[0]].loc() if fns else "")
+        ok_all = ok_all and ok
+    return ok_all
+
+
+def struct_fields(ctx, adt, F=None):
+    """field names of a struct, read from any aggregate construction of it"""
+    F = F or ctx.F
+    for f in F.fns.values():
+        if adt in f.structs and not (f.timpl and f.timpl[0] in ("core::clone::Clone",)):
+            b = ctx.body(f.name, F)
+            for i in range(b.n):
+                for s in b.stmts(i):
+                    if s["k"] == "=" and s["rv"]["k"] == "agg" and s["rv"].get("adt") == adt and not s["rv"].get("var"):
+                        return list(s["rv"]["fields"])
+    return []
+
+
+def field_readers(F, adt, field, scope=None):
+    key = f"{adt}.{field}"
+    r = re.compile(scope) if scope else None
+    out = []
+    for f in F.fns.values():
+        if key in f.fr and (r is None or r.search(f.name)):
+            if f.timpl and (f.timpl[0] in ("core::clone::Clone", "core::fmt::Debug", "core::cmp::PartialEq", "core::cmp::Eq", "core::hash::Hash") or f.timpl[0].startswith("sbor::")):
+                continue
+            out.append(f.name)
+    return out
+
+
+def doomed(body, succ):
+    """no success exit is reachable from block `succ`"""
+    oks = set(body.ok_exits())
+    return not (body.reach((succ,)) & oks)
+
+
+def field_guards(body, field):
+    """switch blocks whose condition depends (deep data dependence) on a place projecting `.field`"""
+    out = []
+    tag = "." + field
+    for sb in body.switches():
+        t = body.term(sb)
+        ats = body.origins(t["o"], deep=True)
+        if any(tag in a.proj for a in ats):
+            out.append(sb)
+    return out
+
+
+def check_limit_enforced(ctx, key, adt, field, scope, F=None, accessor=None):
+    """T7: config field `adt.field` is read in `scope` by a function in which some branch depends on it and one arm of that branch is
+    doomed (cannot reach a success exit) — i.e. the configured limit can actually reject"""
+    F = F or ctx.F
+    readers = [n for n in field_readers(F, adt, field, scope) if adt not in F.fns[n].structs]
+    if accessor:
+        acc = [n for n in readers if re.search(accessor, n)]
+        if acc:
+            callers = who_calls(F, re.escape(acc[0]) + "$")
+            return ctx.ob(f"{key}|{field}", bool(callers), f"{field} is exposed by accessor {acc[0]} with {len(callers)} caller(s)", F.fns[acc[0]].loc())
+    if not readers:
+        return ctx.ob(f"{key}|{field}", False, f"configured limit {field} is never read in {scope}: it is not enforced")
+    best = None
+    for n in readers:
+        for b in ctx.bodies_of(F.fns[n].root, F):
+            for sb in field_guards(b, field):
+                succs = b.succs(sb)
+                d = [s for s in succs if doomed(b, s)]
+                if d and len(d) < len(succs):
+                    best = (b, sb)
+                    break
+            if best:
+                break
+        if best:
+            break
+    if best:
+        b, sb = best
+        ctx.sample({"rule": "T7 limit enforced", "field": field, "fn": b.name, "guard_block": sb, "line": b.line(sb)})
+        return ctx.ob(f"{key}|{field}", True, f"{field} feeds a rejecting branch at bb{sb} of {b.name}", b.loc(sb))
+    return ctx.ob(f"{key}|{field}", False, f"{field} is read by {readers[:3]} but no branch depending on it has a rejecting arm", F.fns[readers[0]].loc())
